@@ -62,6 +62,10 @@ def run_prop(ctx, prop, rule, min_cells=None, require=None):
             thr["threads"] = p["threads"]
             vctx += p["violations"]
     ctx.log("threads with their own clients: %s" % thr)
+    # one client shared by several threads: possible at all?
+    pv, probe_info = client.probe_shared_client(ctx, 2 if q else 10)
+    vctx += pv
+    ctx.log("shared-client probe: %s" % probe_info)
     n3, v3, info = client.c_parity(ctx, rel, cdrv, prop, 300000 if q else 1000000, [prop], blur)
     ctx.log("C library parity + python oracle: %d vectors %s" % (n3, info))
     viol = v1 + v2 + v3 + vctx
@@ -100,6 +104,7 @@ def run_prop(ctx, prop, rule, min_cells=None, require=None):
         "chain_checks": a1["chain_checks"] + a2["chain_checks"],
         "rust_asan_sweep": asan_info,
         "threads_with_own_clients": thr,
+        "shared_client_probe": probe_info,
         "contexts": dict(ctxs, rule="per iteration one of: segment file replaced by a new inode while an older context of the process is alive / after it was closed, then a new context on the same path must answer from the new file (and follow its next publication); mmap() made to fail (ENOMEM, ENODEV, EAGAIN, EACCES) at the moment of the open: either the open is refused with that errno or the context answers like any other; same oracle as the sweep"),
         "hostile_caller_state": {"release": a1.get("hostile_caller_state"), "debug": a2.get("hostile_caller_state")},
         "causality_blur_measured_ns": blurs,
